@@ -674,8 +674,8 @@ def check_C15(ctx):
 def check_C16(ctx):
     q = ctx.quick()
     _engine_only(ctx, "C16")
-    voices = perturbed_voices(ctx, 1, "all") + [rendered_lsp_voice(ctx)]
-    evs = laws_stage(ctx, "gain", 12 if q else 400, voices, keyfn=lambda e, run: "gain:%s" % e.get("ev"))
+    voices = perturbed_voices(ctx, 1, "all") + [rendered_lsp_voice(ctx, 1), rendered_lsp_voice(ctx, 2)]
+    evs = laws_stage(ctx, "gain", 16 if q else 400, voices, keyfn=lambda e, run: "gain:%s" % e.get("ev"))
     ctx.assumptions += ["gain measured at the largest-magnitude sample of the 0 dB waveform; law stated in dB so 10^(v/20) is never computed outside jbonsai"]
     return ("model_checking",
             "MC_Deps: the volume is in no duration / trajectory / shape key. I->S: mel-cepstral (bundled, perturbed) and LSP (rendered) voices, v in [-60,60] dB: "
@@ -683,18 +683,10 @@ def check_C16(ctx):
             {})
 
 
-def rendered_lsp_voice(ctx):
-    cfgp = ctx.path("Gen_Voice_lsp.cfg")
-    open(cfgp, "w").write("CONSTANTS NStates = {2}  Shapes = {3}  Salts = {1}  Stages = {2}  WinSets = {3}\nSPECIFICATION Spec\nINVARIANT Emit\nCHECK_DEADLOCK FALSE\n")
-    cases = gen(ctx, "Voice_lsp", cfgp, S("gen", "Gen_Voice.tla"), workers=2)
-    pick = [c for c in cases if c["fam"]["nstream"] == 3 and not c["fam"]["gv"]][0]
-    cpath = ctx.path("lsp_voice.json")
-    json.dump(pick["voice"], open(cpath, "w"))
-    vpath = ctx.path("rendered_lsp.htsvoice")
-    p = run_jbv(["render", cpath, vpath])
-    if p.returncode != 0:
-        raise ToolError("render failed")
-    return vpath
+def rendered_lsp_voice(ctx, salt=1):
+    """LSP voice of the family: salt 1 -> LN_GAIN=1 (log gain), salt 2 -> LN_GAIN=0 (linear gain)."""
+    return render_family_voice(ctx, "lsp%d" % salt, "NStates = {2}  Shapes = {3}  Salts = {%d}  Stages = {2}  WinSets = {3}" % salt,
+                               lambda f: f["nstream"] == 3 and not f["gv"] and not f["quoted"])
 
 
 def check_C12(ctx):
